@@ -29,7 +29,12 @@ func NormalizeURL(URL *models.URL, parentURL *models.URL) (err error) {
 		// - if the URL does not start with a slash, use the parent URL's scheme, host, and path
 		baseURL := parentURL.GetParsed()
 		if strings.HasPrefix(parsedURL.Path, "/") {
-			adaParse, err = goada.NewWithBase(URL.Raw, baseURL.Scheme+"://"+baseURL.Host)
+			// Keep the parent's userinfo, as every other relative reference does
+			authority := baseURL.Host
+			if baseURL.User != nil {
+				authority = baseURL.User.String() + "@" + authority
+			}
+			adaParse, err = goada.NewWithBase(URL.Raw, baseURL.Scheme+"://"+authority)
 			if err != nil {
 				return err
 			}
